@@ -315,6 +315,47 @@ def reportErr (env : Env) (cfg : GCfg) (st : GState) (f : Finding) : GState := r
 def gate (env : Env) (cfg : GCfg) (nomsg nofail : List Suppr) (fs : List Finding) : GState :=
   gateG dupFixApplied env cfg nomsg nofail fs
 
+/-! ### the second gate of a parallel run: `Executor::hasToLog` (cli/executor.cpp)
+
+With `-j N` every worker runs a `CppCheckLogger` with `useGlobal = false`; what it forwards goes through
+`Executor::hasToLog` in the parent (thread executor: same process; process executor: after the pipe), which applies the whole
+`nomsg` list and has a duplicate filter of its own. -/
+
+structure EState where
+  nomsg : List Suppr
+  /-- `Executor::mErrorList` -/
+  errorList : List Str := []
+  kept : List Out := []
+
+/-- `Executor::hasToLog(msg)` for one message forwarded by a worker.  The executor knows no location macros
+    (`nomsg.isSuppressed(msg, {})`); `isSuppressed(const ::ErrorMessage&, …)` returns false at once for an empty list.
+    The rendering is taken to be the one the worker computed (templates containing `{remark}` are outside). -/
+def hasToLog (env : Env) (cfg : GCfg) (st : EState) (o : Out) : Bool × EState :=
+  if o.f.internal || o.asInternal then (true, st)
+  else
+    let m := toMsg env { cfg with locMacros := [] } o.f
+    let r := if st.nomsg.isEmpty then (false, st.nomsg) else listIsSuppressed env true m st.nomsg
+    let st1 : EState := { st with nomsg := r.2 }
+    if r.1 then (false, st1)
+    else if o.f.text.isEmpty then (false, st1)
+    else if cfg.emitDuplicates then (true, st1)
+    else if st1.errorList.contains o.f.text then (false, st1)
+    else (true, { st1 with errorList := o.f.text :: st1.errorList })
+
+def execStep (env : Env) (cfg : GCfg) (st : EState) (o : Out) : EState :=
+  let r := hasToLog env cfg st o
+  if r.1 then { r.2 with kept := r.2.kept ++ [o] } else r.2
+
+/-- the executor's filter over everything a worker forwarded -/
+def execFilter (env : Env) (cfg : GCfg) (nomsg : List Suppr) (outs : List Out) : EState :=
+  outs.foldl (execStep env cfg) { nomsg := nomsg }
+
+/-- a parallel run seen from the suppressions: worker logger without the global suppressions, then the executor
+    (one worker; the order in which several workers deliver is C15's subject) -/
+def parallelRun (env : Env) (cfg : GCfg) (nomsg nofail : List Suppr) (fs : List Finding) : EState :=
+  let w := gate env { cfg with useGlobal := false } nomsg nofail fs
+  execFilter env cfg w.nomsg w.out
+
 /-! ### specification: the documented matching rules -/
 
 namespace Spec
@@ -349,15 +390,34 @@ def locationMatches (env : Env) (s : Suppr) (m : Msg) : Bool :=
   | .macro => m.macroNames.contains s.macroName
   | .blockBegin | .blockEnd => false
 
-/-- "suppression `s` matches finding `m`" by the documented rules.  The last conjunct is the one rule of the
-    code that the manual does not spell out: a finding without an id is never hidden by an id pattern. -/
-def matchesB (env : Env) (s : Suppr) (m : Msg) : Bool :=
-  locationMatches env s m && hashMatches s m && idMatches s m && symbolMatches s m &&
-  (s.type = .macro || s.errorId.isEmpty || !m.errorId.isEmpty)
+/-- "suppression `s` matches finding `m`" by the rules of the manual (§Suppressions, §Inline suppressions): location by
+    kind, hash, id glob, symbol glob -/
+def documented (env : Env) (s : Suppr) (m : Msg) : Bool :=
+  locationMatches env s m && hashMatches s m && idMatches s m && symbolMatches s m
 
-/-- which entries of a list are active for a finding: with `global = false` (worker of a parallel run) only
-    entries bound to one concrete file; `unmatchedSuppression` findings only by entries naming exactly that id -/
-def active (global : Bool) (m : Msg) (s : Suppr) : Bool := considered global m s
+/-- RULE TAKEN FROM THE CODE, not from the manual: a finding that carries no id at all is never hidden by an id pattern
+    (comment in lib/suppressions.cpp: "a hack to allow wildcard suppressions on IDs to be marked as checked"); macro
+    suppressions are exempt.  Vacuous for every finding cppcheck emits (they all have an id): see
+    `isSuppressed_matched_iff_documented`. -/
+def idlessRule (s : Suppr) (m : Msg) : Bool :=
+  s.type = .macro || s.errorId.isEmpty || !m.errorId.isEmpty
+
+/-- the specification the implementation is compared with: the manual's rules plus the one code rule above -/
+def matchesB (env : Env) (s : Suppr) (m : Msg) : Bool :=
+  documented env s m && idlessRule s m
+
+/-- is the suppression bound to one concrete file (a file name without wildcard)? -/
+def boundToOneFile (s : Suppr) : Bool :=
+  !s.fileName.isEmpty && !s.fileName.contains '*' && !s.fileName.contains '?'
+
+/-- which entries of a list are applied to a finding — two RULES TAKEN FROM THE CODE (the manual is silent on both):
+    (a) division of labour in a parallel run: a worker's logger (`global = false`) applies only the entries bound to one
+        concrete file, all entries are applied afterwards by the executor (`execFilter`); a single-job run applies all;
+    (b) an `unmatchedSuppression` finding is only hidden by an entry that names exactly this id (so `--suppress=*` does not
+        silence the report about itself).
+    Stated here independently of the implementation's `considered`; `active_eq_considered` proves they agree. -/
+def active (global : Bool) (m : Msg) (s : Suppr) : Bool :=
+  (global || boundToOneFile s) && (m.errorId != unmatchedId || s.errorId = unmatchedId)
 
 end Spec
 
